@@ -599,7 +599,7 @@ def main():
     ap.add_argument("--replay")
     ap.add_argument("--show-extraction")
     ap.add_argument("--update-baseline", action="store_true")
-    ap.add_argument("--jobs", type=int, default=4)
+    ap.add_argument("--jobs", type=int, default=8)
     a = ap.parse_args()
     seed = int(os.environ.get("VERIF_SEED", "0") or 0)
     os.makedirs(BUILD, exist_ok=True)
